@@ -30,7 +30,7 @@ class C15(RailsProp):
             "served on ONE instance either as a seeded sequential interleaving or as concurrent tasks with latencies from a grid (0..1 s, slow-peer x100 fault); "
             "non-trivial = runs where >= 2 LLM calls of different conversations overlapped in time, or two distinct message lists of the scenario share a cache key; "
             "distinct = distinct hash of the cross-conversation order of seam events")
-    expected_probes = ["twin_prefix_conversations", "llm_calls_overlapped", "llm_params_blocks_overlapped", "cache_key_collision_in_scenario", "sequential_interleaving", "concurrent_execution"]
+    expected_probes = ["streamed_conversations", "twin_prefix_conversations", "llm_calls_overlapped", "llm_params_blocks_overlapped", "cache_key_collision_in_scenario", "sequential_interleaving", "concurrent_execution"]
     quick_runs = 320
     thorough_runs = 40000
     chunk = 4
@@ -114,6 +114,13 @@ class C15(RailsProp):
                 sc["order"][i], sc["order"][j] = 1, 0
         sc["lat_mode"] = "conc"
         sc["slow_peer"] = d.chance(0.15, "slow")
+        if colang == "1.0" and not sc["out_rails"] and d.chance(0.5, "streaming"):
+            # some conversations consume their reply through a streaming handler of their own (what stream_async does);
+            # the text a handler delivers belongs to the reply of that conversation and to no other
+            sc["streaming"] = True
+            sc["chunk_seed"] = d.randint(0, 1 << 30, "chunkseed")
+            for c, conv in enumerate(sc["convs"]):
+                conv["stream"] = d.chance(0.6, "stream", c)
         return sc
 
     # ---------------------------------------------------------------------------------------
@@ -141,6 +148,16 @@ class C15(RailsProp):
         try:
             world = R.RailsWorld(sc, loop_clock=clock, latency=llm_lat, action_latency=act_lat)
             base_params = world.llm._params()
+            if sc.get("streaming"):
+                cd = Draws(sc.get("chunk_seed", 0))
+
+                def chunker(call, reply):
+                    # a pure function of (conversation, number of the call within the conversation, offset): the same chunks alone and shared
+                    k = sum(1 for x in world.llm_world.calls if x.conv == call.conv)
+                    cuts = [i for i in range(1, len(reply)) if cd.unit("cut", call.conv, k, i) < 0.3]
+                    return [reply[a:b] for a, b in zip([0] + cuts, cuts + [len(reply)])]
+
+                world.llm_world.chunker = chunker
             results = {}
             quiescence = []
             in_flight = {"n": 0}
@@ -151,18 +168,43 @@ class C15(RailsProp):
                 if turn.get("temperature") is not None:
                     opts = {"llm_params": {"temperature": turn["temperature"]}}
                 in_flight["n"] += 1
+                handler = got = ct = None
+                if sc.get("streaming") and sc["convs"][c].get("stream"):
+                    from nemoguardrails.streaming import StreamingHandler
+
+                    handler, got = StreamingHandler(), []
+
+                    async def consume(h=handler, g=got):
+                        async for piece in h:
+                            g.append(piece)
+
+                    ct = asyncio.ensure_future(consume())
                 if sc["colang"] == "1.0":
                     if t == 0 and turn.get("prefix_messages"):
                         msgs.extend(dict(m) for m in turn["prefix_messages"])
                     if t == 0 and turn.get("pre_context"):
                         msgs.append({"role": "context", "content": dict(turn["pre_context"])})
                     msgs.append({"role": "user", "content": turn["text"]})
-                    st, res = await world.generate("c%d" % c, messages=msgs, options=opts)
+                    st, res = await world.generate("c%d" % c, messages=msgs, options=opts, streaming_handler=handler)
                 else:
                     st, res = await world.generate("c%d" % c, messages=[{"role": "user", "content": turn["text"]}], state=state_box.get("s") or {}, options=opts)
                 in_flight["n"] -= 1
                 if in_flight["n"] == 0:
                     quiescence.append((round(clock(), 6), world.llm._params()))
+                streamed = None
+                if ct is not None:
+                    # generate_async closes the handler; the consumer then ends by itself within this grace period
+                    for _ in range(50):
+                        if ct.done():
+                            break
+                        await asyncio.sleep(0.001)
+                    if not ct.done():
+                        ct.cancel()
+                        try:
+                            await ct
+                        except asyncio.CancelledError:
+                            pass
+                    streamed = "".join(x for x in got if x)
                 reply = None
                 if st == "ok":
                     msg = res
@@ -173,7 +215,7 @@ class C15(RailsProp):
                     content = msg.get("content")
                     if isinstance(content, dict):  # rail exception event: drop fresh identifiers and timestamps
                         content = repr(sorted((k, v) for k, v in content.items() if k not in ("uid", "event_created_at", "source_uid")))
-                    reply = (msg.get("role"), content if isinstance(content, str) else repr(content))
+                    reply = (msg.get("role"), content if isinstance(content, str) else repr(content)) + ((("streamed", streamed),) if streamed is not None else ())
                     if sc["colang"] == "1.0" and msg.get("role") == "assistant":
                         msgs.append({"role": "assistant", "content": msg.get("content")})
                 else:
@@ -249,6 +291,8 @@ class C15(RailsProp):
             out.probe("cache_key_collision_in_scenario")
         if sc.get("adversarial") == "twin":
             out.probe("twin_prefix_conversations")
+        if sc.get("streaming") and sum(1 for cv in sc["convs"] if cv.get("stream")) >= 1:
+            out.probe("streamed_conversations")
         # per conversation reference on a fresh instance
         per_conv_calls = {}
         for cl in calls:
